@@ -280,7 +280,7 @@ def gen_vector_case(rng):
 def gen_cases(ctx):
     rng = ctx.rng
     thorough = ctx.tier == "thorough"
-    per_family = 260 if thorough else 36
+    per_family = 260 if thorough else 56
     n_units = 28 if thorough else 20
     cases = []
     # fixed regression cases first (reading-time suspicion of DESIGN.md section 6 and its neighbours)
@@ -305,7 +305,7 @@ def gen_cases(ctx):
     for fam in FAMILIES:
         for _ in range(per_family):
             cases.append(gen_prior_case(rng, fam, n_units))
-    for _ in range(200 if thorough else 40):
+    for _ in range(200 if thorough else 60):
         cases.append(gen_vector_case(rng))
     return cases
 
@@ -578,7 +578,9 @@ def oracle_vector(c, r):
             for spec, x in zip(c["priors"], vec["ok"]):
                 lo, hi, v = unhex(spec["lo"]), unhex(spec["hi"]), unhex(x)
                 if not within(lo, v, hi):
-                    F.add("out-of-limit", "vector entry %r outside the limits [%r, %r] of its prior" % (v, lo, hi))
+                    # tagged with the class of THIS prior only, so that the known finding cannot hide another family
+                    F.add("out-of-limit" if prior_classes(spec) else "out-of-limit-other",
+                          "vector entry %r outside the limits [%r, %r] of its %s prior" % (v, lo, hi, spec["family"]))
     else:
         if vec.get("exc") != "PriorLimitException":
             F.add("exception", "vector_from_unit_vector raised %s: %s" % (vec.get("exc"), vec.get("msg")))
